@@ -10,6 +10,8 @@ import shutil
 import numpy as np
 from harness import common as C
 
+USES_MODELS = ['C10']     # Chemistry.twoLayerGas: the layer-dependent mixing ratio on the model's pressure profile
+
 # ----------------------------------------------------------------------------- source tie (harness/translate.py)
 # Regenerated on every run into lean/TaurexModel/Gen/SrcC11.lean; lean/Props/C11Src.lean proves each definition equal to
 # the hand-written model of TaurexModel/Structure.lean.  dialect='arr': the array idioms of harness/translate_arr.py.
@@ -79,12 +81,19 @@ RULE = ('planets 0.01-20 M_J, 0.1-3 R_J; 1-200 layers (quota for 1, 2, 3); press
         'reversed, log-regular / jittered / wild), FilePressureProfile (text file in Pa, bar, mbar); plus calculate_scale_properties on arbitrary strictly decreasing levels '
         'with random T and mu; re-use stream: one SimplePressureProfile / one built model whose bounds, planet mass '
         'and radius, temperatures and abundances are changed through the public setters / model[name] and which is '
-        're-initialised, judged against the new values and a freshly built object. distinct non-trivial = distinct (stream, pressure class, temperature class, layers, '
+        're-initialised, judged against the new values and a freshly built object; shared-components stream: a second model '
+        '(other layer count / pressure grid) built around the temperature profile / chemistry / planet / star OBJECTS of a first '
+        'one, both judged and compared with models built from new components; TwoLayerGas smoothing windows: default, collapsing '
+        'to one layer (int(n*w/100) <= 1), wide - the CO2 row compared with the C10 model on the model pressure profile and judged '
+        'for alignment with it; length units km / cm / mm / AU / Rjup judged against an independent table of unit sizes. distinct non-trivial = distinct (stream, pressure class, temperature class, layers, '
         'mu class) with non-constant T or mu or more than one layer')
 ASSUMPTIONS = [
     'np.linspace(a, b, n+1) = i*((b-a)/n) + a with the last entry set to b; np.logspace = 10**linspace; x**2 = x*x',
     'np.gradient with unit spacing: one-sided differences at the ends, (f[i+1]-f[i-1])/2 inside',
     'conversion_factor("m", "m") = 1; KBOLTZ and G are read from taurex.constants at run time and passed to the model',
+    'conversion_factor between metre multiples (m, km, cm, mm, um) = Structure.lengthFactor = ratio of the unit sizes (validated '
+    'for all 25 pairs); AU = 149597870700 m, Rjup = taurex.constants.RJUP (the harness table of unit sizes)',
+    'TwoLayerGas on the model pressure profile = Chemistry.twoLayerGas of the C10 model (driver_c10), for two or more layers',
     'the atmosphere stays finite in doubles (z_top below 1e3 planetary radii); runaway (unbound) cases go to the '
     'malformed stream',
     'rounding: model on Float vs numpy doubles compared to 1e-9 relative',
@@ -318,6 +327,34 @@ def same_arrays(a, b):
 
 
 # ----------------------------------------------------------------------------- stream 2: calculate_scale_properties
+METRE_MULTIPLES = ['m', 'km', 'cm', 'mm', 'um']
+
+
+def metres_per(unit):
+    """size of a length unit in metres, independent of taurex.util.util.conversion_factor"""
+    k = constants()
+    return {'m': 1.0, 'km': 1e3, 'cm': 1e-2, 'mm': 1e-3, 'um': 1e-6, 'AU': 149597870700.0, 'Rjup': k['RJUP']}[unit]
+
+
+def check_unit_factor(ctx, a, b, case):
+    """conversion_factor(a, b) against Structure.lengthFactor (metre multiples) and against the ratio of the unit sizes"""
+    from taurex.util.util import conversion_factor
+    f = float(conversion_factor(a, b))
+    if a in METRE_MULTIPLES and b in METRE_MULTIPLES:
+        d = ctx.model().call('c11.unit', C.S(a), C.S(b))
+        ctx.check_close('conversion_factor(%r, %r) vs Structure.lengthFactor' % (a, b), f, d.opt(d.flt), case, 1e-12)
+    ctx.check_close('conversion_factor(%r, %r) vs the ratio of the unit sizes' % (a, b), f, metres_per(a) / metres_per(b),
+                    case, 1e-12)
+
+
+def validate_units(ctx):
+    """external: conversion_factor between every pair of metre multiples (both directions)"""
+    for a in METRE_MULTIPLES:
+        for b in METRE_MULTIPLES:
+            check_unit_factor(ctx, a, b, dict(kind='unit', frm=a, to=b))
+            ctx.bucket('external:conversion_factor')
+
+
 def gen_planet(rng):
     mass = float(10 ** rng.uniform(-2, math.log10(20)))
     radius = float(10 ** rng.uniform(-1, math.log10(3)))
@@ -379,7 +416,7 @@ def eval_direct(ctx, c):
     # so the hydrostatic relations hold in any unit
     if (n + int(abs(float(T[0])) * 7)) % 3 == 0:
         from taurex.util.util import conversion_factor
-        unit = ['km', 'cm', 'AU', 'Rjup'][(n + int(abs(float(pl[0])))) % 4]
+        unit = ['km', 'cm', 'AU', 'Rjup', 'mm'][(n + int(abs(float(pl[0])))) % 5]
         try:
             f = float(conversion_factor('m', unit))
             with np.errstate(all='ignore'):
@@ -389,6 +426,28 @@ def eval_direct(ctx, c):
                           small)
             return
         ctx.bucket('length_units:' + unit)
+        # the hydrostatic relations IN THE REQUESTED UNIT, with the size of the unit taken from an independent table (the
+        # metre multiples: Structure.lengthFactor): H = kT/(mu g), g = GM/(R+z)^2 and the altitudes, each expressed in it
+        size = metres_per(unit)
+        su = dict(small, unit=unit)
+        check_unit_factor(ctx, 'm', unit, su)
+        g_m = gm / (R + z[:-1]) ** 2
+        H_m = k['KBOLTZ'] * T / (mu * g_m)
+        if not (C.close(Hu, H_m / size, 1e-9) and C.close(gu, g_m / size, 1e-9) and C.close(zu, z / size, 1e-9)
+                and C.close(dzu, dz / size, 1e-9)):
+            ctx.violation('length-units-scale:' + unit,
+                          'calculate_scale_properties(length_units=%r): scale height / gravity / altitude are not kT/(mu g), '
+                          'GM/(R+z)^2 and the hydrostatic altitude expressed in that unit' % unit, su,
+                          dict(unit=unit, metres_per_unit=size, H=Hu[:3], expected_H=(H_m / size)[:3], z=zu[:3],
+                               expected_z=(z / size)[:3]))
+        # the planet's own radius in the same unit, and a radius given in it
+        rad_u = float(planet.get_planet_radius(unit=unit))
+        p2 = Planet(mass, radius)
+        p2.set_planet_radius(rad_u, unit=unit)
+        if not (C.close(rad_u, R / size, 1e-12) and C.close(float(p2.fullRadius), rad_u * size, 1e-12)):
+            ctx.violation('length-units-radius:' + unit, 'get_planet_radius / set_planet_radius in %r do not convert by the '
+                          'size of the unit' % unit, su, dict(radius_in_unit=rad_u, expected=R / size,
+                                                              fullRadius_after_set=float(p2.fullRadius), expected_m=R))
         ok = (C.close(zu, z * f, 1e-12) and C.close(Hu, H * f, 1e-12) and C.close(gu, g * f, 1e-12)
               and C.close(dzu, dz * f, 1e-12) and C.close(np.diff(zu), dzu, 1e-9, abs_=1e-9 * abs(float(zu[-1]))))
         if not ok:
@@ -424,7 +483,15 @@ def gen_direct(rng, k):
 
 
 # ----------------------------------------------------------------------------- stream 3: a real forward model
-def build_model(c):
+def co2_smoothing(c):
+    """smoothing window (percent of the layers) of the layer-dependent CO2 profile; cases stored before it was generated
+    have the constructor default"""
+    return float(c['co2'][3]) if len(c['co2']) > 3 else 10.0
+
+
+def build_model(c, comps=None):
+    """the forward model of case `c`; `comps` = component OBJECTS to use instead of new ones (temperature_profile,
+    chemistry, planet, star): the way a session builds a second model around components it already has"""
     from taurex.model import TransmissionModel
     from taurex.data import Planet
     from taurex.data.stellar import BlackbodyStar
@@ -446,8 +513,12 @@ def build_model(c):
 
     register_opacity()
     n = int(c['n'])
+    if comps is None:
+        comps = {}
     tk = c['tkind']
-    if tk == 'isothermal':
+    if 'temperature_profile' in comps:
+        tp = comps['temperature_profile']
+    elif tk == 'isothermal':
         tp = Isothermal(float(c['T'][0]))
     elif tk == 'npoint':
         tp = NPoint(T_surface=float(c['T'][0]), T_top=float(c['T'][1]))
@@ -455,13 +526,16 @@ def build_model(c):
         tp = Guillot2010(T_irr=float(c['T'][0]))
     else:
         tp = ArrayT(c['T'])
-    chem = TaurexChemistry(fill_gases=['H2', 'He'], ratio=float(c['ratio']))
-    chem.addGas(ConstantGas('H2O', mix_ratio=float(c['h2o'])))
-    if c['mukind'] == 'varying':
-        chem.addGas(TwoLayerGas('CO2', mix_ratio_surface=float(c['co2'][0]), mix_ratio_top=float(c['co2'][1]),
-                                mix_ratio_P=float(c['co2'][2])))
-    kw = dict(planet=Planet(float(c['mass']), float(c['radius'])), star=BlackbodyStar(5800.0, 1.0),
-              temperature_profile=tp, chemistry=chem)
+    if 'chemistry' in comps:
+        chem = comps['chemistry']
+    else:
+        chem = TaurexChemistry(fill_gases=['H2', 'He'], ratio=float(c['ratio']))
+        chem.addGas(ConstantGas('H2O', mix_ratio=float(c['h2o'])))
+        if c['mukind'] == 'varying':
+            chem.addGas(TwoLayerGas('CO2', mix_ratio_surface=float(c['co2'][0]), mix_ratio_top=float(c['co2'][1]),
+                                    mix_ratio_P=float(c['co2'][2]), mix_ratio_smoothing=co2_smoothing(c)))
+    kw = dict(planet=comps.get('planet') or Planet(float(c['mass']), float(c['radius'])),
+              star=comps.get('star') or BlackbodyStar(5800.0, 1.0), temperature_profile=tp, chemistry=chem)
     if c['pkind'] == 'simple':
         m = TransmissionModel(nlayers=n, atm_min_pressure=float(c['pmin']), atm_max_pressure=float(c['pmax']), **kw)
     else:
@@ -596,6 +670,7 @@ def judge_model(ctx, m, c, small, stream):
             check_hydrostatic(ctx, z, H, g, dz, T, pl, mu, gm, R, k['KBOLTZ'], small, 'model')
     else:
         ctx.bucket(stream + ':levels-not-decreasing(not judged)')
+    judge_mixing(ctx, m, c, small, stream, n, P, T, mu)
     dens = np.asarray(m.densityProfile, float)
     if dens.shape == (n,) and not C.close(dens, P / (k['KBOLTZ'] * T), 1e-12):
         ctx.violation('density-formula', 'densityProfile differs from P/(kT)', small)
@@ -617,6 +692,55 @@ def judge_model(ctx, m, c, small, stream):
         d = ctx.model().call('c11.arraylevels', C.L(P))
         ml = d.opt(d.list)
         ctx.check_close('model pressure levels vs Structure.arrayLevels', pl, ml if ml is not None else [], small, REL)
+
+
+def judge_mixing(ctx, m, c, small, stream, n, P, T, mu):
+    """mixing ratios and mean molecular weight: one entry per layer, ALIGNED with the pressure profile (entry l belongs to
+    the layer of pressure P[l], surface first).  The layer-dependent CO2 profile is compared with the C10 model of
+    TwoLayerGas (Chemistry.twoLayerGas, driver_c10) evaluated on the model's own pressure profile; its own predicate: every
+    layer that lies below the transition (more than the smoothing half-window under its lower node) carries the surface
+    abundance, every layer above it the top abundance.  mu[l] is the sum of the layer-l mixing ratios times the masses."""
+    from taurex.util.util import get_molecular_weight
+    ch = m.chemistry
+    mix = np.atleast_2d(np.asarray(ch.mixProfile, float))
+    gases = list(ch.gases)
+    if mix.shape != (len(gases), n) or mu.shape != (n,):
+        return                       # reported by the length predicates
+    mu_o = np.zeros(n)
+    for row, g in zip(mix, gases):
+        mu_o = mu_o + row * float(get_molecular_weight(g))
+    if not C.close(mu, mu_o, 1e-12):
+        ctx.violation('mu-not-aligned', 'muProfile[l] is not the sum of the layer-l mixing ratios times the molecular masses',
+                      small, dict(mu=mu[:4], expected=mu_o[:4]))
+    if c['mukind'] != 'varying' or 'CO2' not in gases:
+        return
+    row = np.asarray(ch.get_gas_mix_profile('CO2'), float)
+    surf, top, pb = (float(x) for x in c['co2'][:3])
+    w = co2_smoothing(c)
+    if n < 2:
+        return          # one layer: the nodes of the two-layer profile coincide (the C10 model is stated for two or more layers)
+    d = ctx.model('C10').call('c10.gas', ' '.join([C.N(1), C.F(surf), C.F(top), C.F(pb), C.F(w)]), C.N(n), C.L(P), C.L(T))
+    if d.nat() == 0:
+        ctx.check_close('chemistry CO2 (TwoLayerGas) row vs Chemistry.twoLayerGas on the model pressure profile', row,
+                        d.list(), small, REL, 1e-300)
+    pl_ = int(np.abs(P - pb).argmin())
+    start = max(int(pl_ - w / 2), 0)
+    end = min(int(pl_ + w / 2), n - 1)
+    ws = int(n * (w / 100.0))
+    half = (ws + (1 if ws % 2 == 0 else 0)) // 2
+    idx = np.arange(n)
+    deep = idx < start - half
+    high = idx > end + half
+    collapsed = ws <= 1
+    ctx.bucket(stream + ':two-layer-window:' + ('one-layer' if collapsed else 'several-layers'))
+    if np.any(deep) or np.any(high):
+        ctx.bucket(stream + ':two-layer-aligned-judged' + (':one-layer-window' if collapsed else ''))
+    if (np.any(deep) and not C.close(row[deep], np.full(int(deep.sum()), surf), 1e-9)) or \
+            (np.any(high) and not C.close(row[high], np.full(int(high.sum()), top), 1e-9)):
+        ctx.violation('mixing-ratio-not-aligned:' + ('one-layer-window' if collapsed else 'smoothed'),
+                      'the layer-dependent mixing ratio is not aligned with the pressure profile: layers below the '
+                      'transition must carry the surface abundance, layers above it the top abundance', small,
+                      dict(P=P, row=row, surface=surf, top=top, P_boundary=pb, window=w))
 
 
 def gen_pressure_range(rng):
@@ -648,8 +772,19 @@ def gen_model_case(rng, k):
     c['h2o'] = float(10 ** rng.uniform(-8, -1))
     c['mukind'] = 'varying' if rng.random() < 0.5 else 'const'
     c['co2'] = [float(10 ** rng.uniform(-6, -0.5)), float(10 ** rng.uniform(-9, -2)),
-                float(10 ** rng.uniform(math.log10(pmin), math.log10(pmax)))]
+                float(10 ** rng.uniform(math.log10(pmin), math.log10(pmax))), gen_smoothing(rng, n, k)]
     return c
+
+
+def gen_smoothing(rng, n, k):
+    """smoothing window of the TwoLayerGas in percent of the layers: the constructor default, a window that collapses to a
+    single layer (int(n*w/100) <= 1: nothing is trimmed off the ends of the moving average), a wide one"""
+    r = (k // 2) % 4
+    if r == 0:
+        return 10.0
+    if r == 1 or r == 3:
+        return float(rng.uniform(0.0, 199.0 / max(n, 2)))
+    return float(rng.uniform(0.0, 60.0))
 
 
 def gen_array(rng, n, pmin, pmax):
@@ -689,9 +824,10 @@ class AfterModelCtx:
 class PrefixCtx:
     """the run context with every violation key prefixed (same counters, same driver)"""
 
-    def __init__(self, ctx, prefix):
+    def __init__(self, ctx, prefix, note=None):
         object.__setattr__(self, '_ctx', ctx)
         object.__setattr__(self, '_prefix', prefix)
+        object.__setattr__(self, '_note', note)
 
     def __getattr__(self, name):
         return getattr(self._ctx, name)
@@ -700,7 +836,8 @@ class PrefixCtx:
         setattr(self._ctx, name, value)
 
     def violation(self, key, what, case, detail=None):
-        self._ctx.violation(self._prefix + key, what + ' [object re-used after a parameter change]', case, detail)
+        note = getattr(self, '_note', None) or ' [object re-used after a parameter change]'
+        self._ctx.violation(self._prefix + key, what + note, case, detail)
 
 
 FRESH_ATTRS = ['pressureProfile', 'temperatureProfile', 'densityProfile', 'altitudeProfile', 'gravity_profile',
@@ -754,6 +891,12 @@ def apply_changes(m, c0, c1):
         todo += [('T_irr', c1['T'][0])]
     if c1['mukind'] == 'varying':
         todo += [('CO2_surface', c1['co2'][0]), ('CO2_top', c1['co2'][1]), ('CO2_P', c1['co2'][2])]
+    if c1.get('set_order') is not None:
+        # the order in which a caller writes the parameters is its own business; parameters that keep their value are not
+        # written at all (e.g. a new planet mass at an unchanged radius)
+        todo = [todo[i] for i in c1['set_order'] if i < len(todo)]
+        same = {'planet_mass': 'mass', 'planet_radius': 'radius'}
+        todo = [t for t in todo if not (t[0] in same and float(c0[same[t[0]]]) == float(c1[same[t[0]]]))]
     for name, value in todo:
         m[name] = float(value)
     return [t[0] for t in todo]
@@ -814,14 +957,99 @@ def gen_reuse_model(rng, k):
     c1['h2o'] = float(10 ** rng.uniform(-8, -1))
     lo = math.log10(c1['pmin']) if c1['pkind'] == 'simple' else math.log10(float(np.min(c0['array'])))
     hi = math.log10(c1['pmax']) if c1['pkind'] == 'simple' else math.log10(float(np.max(c0['array'])))
-    c1['co2'] = [float(10 ** rng.uniform(-6, -0.5)), float(10 ** rng.uniform(-9, -2)), float(10 ** rng.uniform(lo, hi))]
+    c1['co2'] = [float(10 ** rng.uniform(-6, -0.5)), float(10 ** rng.uniform(-9, -2)), float(10 ** rng.uniform(lo, hi)),
+                 co2_smoothing(c0)]
+    if k % 2 == 1:
+        c1['set_order'] = [int(i) for i in rng.permutation(12)]
+        if rng.random() < 0.5:
+            c1['radius'] = c0['radius']
     return dict(kind='reuse-model', before=c0, after=c1)
+
+
+# ----------------------------------------------------------------------------- stream 5: components shared by two models
+SHARE = ['temperature_profile', 'chemistry', 'planet', 'star']
+
+
+def eval_shared(ctx, c):
+    """a session that builds a SECOND forward model (other layer count / pressure grid, same physical parameters) around
+    component objects a first model has already initialised and read: the second model is judged like a fresh one (one
+    value per layer, hydrostatic, equal to a model built from new components), then the first one is re-initialised and
+    judged again"""
+    c0, c1, share = c['first'], c['second'], list(c['share'])
+    small = dict(kind='shared', first=c0, second=c1, share=share)
+    note = ' [model built around components (%s) another model had used before]' % ', '.join(share)
+    try:
+        with np.errstate(all='ignore'):
+            a = build_model(c0)
+            a.generate_profiles()
+            objs = dict(temperature_profile=a.temperature, chemistry=a.chemistry, planet=a.planet, star=a.star)
+            b = build_model(c1, {k_: objs[k_] for k_ in share})
+    except Exception as e:
+        if _invalid_params(ctx, e):
+            return
+        ctx.violation('shared-component:raises:build', 'building a second model around the components of a first one '
+                      'raised %r' % (e,), small)
+        return
+    for nm in share:
+        ctx.bucket('shared:' + nm)
+    ctx.bucket('shared:layers:' + ('more' if int(c1['n']) > int(c0['n']) else 'fewer' if int(c1['n']) < int(c0['n'])
+                                    else 'equal'))
+    for which, m, cc in (('second', b, c1), ('first-again', a, c0)):
+        try:
+            with np.errstate(all='ignore'):
+                if which == 'first-again':
+                    m.initialize_profiles()
+                judge_model(PrefixCtx(ctx, 'shared-component:', note), m, cc, small, 'shared-' + which)
+                fresh = build_model(cc)
+                pairs = [(nm, getattr(m, nm), getattr(fresh, nm)) for nm in FRESH_ATTRS]
+                pairs.append(('muProfile', m.chemistry.muProfile, fresh.chemistry.muProfile))
+        except Exception as e:
+            if _invalid_params(ctx, e):
+                return
+            ctx.violation('shared-component:raises:' + which, 'reading the structure of a model built around components '
+                          'another model had used raised %r' % (e,), small)
+            return
+        z = np.asarray(fresh.altitude_boundaries, float)
+        if not (np.all(np.isfinite(z)) and z[-1] < 1e3 * float(fresh.planet.fullRadius)):
+            continue
+        for name, x, y in pairs:
+            x = np.asarray(x, float)
+            y = np.asarray(y, float)
+            ctx.disagreements_checked += 1
+            if x.shape != y.shape or not C.close(x.ravel(), y.ravel(), 1e-12, 0.0):
+                ctx.violation('shared-component:differs-from-fresh:' + name, 'model.%s of a model built around components '
+                              'another model had used differs from a model built from new components' % name, small,
+                              dict(which=which, shape=list(x.shape), fresh_shape=list(y.shape), shared=x[:4], fresh=y[:4]))
+
+
+def gen_shared(rng, k):
+    c0 = gen_model_case(rng, k)
+    if c0['tkind'] == 'array':             # one temperature per layer: cannot serve another layer count
+        c0['tkind'] = ['isothermal', 'npoint', 'guillot'][k % 3]
+        c0['T'] = np.minimum(np.asarray(c0['T'], float)[:2], 2500.0) if len(c0['T']) >= 2 else \
+            np.array([float(c0['T'][0]), float(c0['T'][0])])
+    if c0['tkind'] == 'npoint' and int(c0['n']) < 2:
+        c0['n'] = 2
+        if c0['pkind'] == 'array':
+            c0.update(gen_array(rng, 2, c0['pmin'], c0['pmax']))
+    c1 = dict(c0)
+    n0 = int(c0['n'])
+    lo = 2 if (c0['pkind'] == 'array' or c0['tkind'] == 'npoint') else 1
+    n1 = [n0 + int(rng.integers(1, 40)), max(lo, n0 - int(rng.integers(1, 40))), int(rng.integers(lo, 201))][k % 3]
+    c1['n'] = n1
+    if c0['pkind'] == 'array':
+        c1.pop('file', None)
+        c1.update(gen_array(rng, n1, c0['pmin'], c0['pmax']))
+    share = [SHARE[k % 4]] if k % 2 == 0 else [x for x in SHARE if rng.random() < 0.6] or ['temperature_profile']
+    return dict(kind='shared', first=c0, second=c1, share=share)
 
 
 # ----------------------------------------------------------------------------- entry points
 def eval_case(ctx, c):
     kind = c.get('kind')
-    if kind == 'reuse-pressure':
+    if kind == 'shared':
+        eval_shared(ctx, c)
+    elif kind == 'reuse-pressure':
         eval_reuse_pressure(ctx, c)
     elif kind == 'reuse-model':
         eval_reuse_model(ctx, c)
@@ -853,6 +1081,7 @@ def malformed(ctx):
 def run(ctx):
     rng = ctx.rng
     constants()
+    validate_units(ctx)
     for k in range(ctx.n(400, 6000)):
         quota = [1, 2, 3]
         n = quota[k % 10] if k % 10 < 3 else int(rng.integers(1, 201))
@@ -877,6 +1106,8 @@ def run(ctx):
                                       how='property' if k % 2 else 'fitparam'))
     for k in range(ctx.n(150, 2500)):
         eval_reuse_model(ctx, gen_reuse_model(rng, k))
+    for k in range(ctx.n(120, 2000)):
+        eval_shared(ctx, gen_shared(rng, k))
     malformed(ctx)
 
 
